@@ -36,6 +36,17 @@ def cases(rng, tier):
         if k % 25 == 0:
             for c in range(len(b)):
                 out.append("PARSE " + (b[:c].hex() or "-"))
+    # several OPT records: each counted entry must come back (the first OPT of the additional section in the header data,
+    # every other one in its section, in order)
+    def opt_rr(udp, ext, ver, flags, opts=b""):
+        return b"\x00\x00\x29" + udp.to_bytes(2, "big") + bytes([ext, ver]) + flags.to_bytes(2, "big") + len(opts).to_bytes(2, "big") + opts
+    a_rr = b"\x01a\x00\x00\x01\x00\x01\x00\x00\x00\x78\x00\x04\x0a\x00\x00\x01"
+    for (o1, o2) in (((1232, 0, 0, 0), (512, 1, 0, 0x8000)), ((4096, 1, 0, 0), (1232, 0, 0, 0)), ((512, 0, 3, 0), (512, 0, 3, 0))):
+        r1, r2 = opt_rr(*o1), opt_rr(*o2, opts=b"\x00\x0a\x00\x02\xab\xcd")
+        for adds in ([r1, r2], [a_rr, r1, r2], [r1, a_rr, r2], [r1, r2, a_rr], [a_rr, r1, a_rr, r2, a_rr], [r1, r2, r1]):
+            hdr = b"\x00\x07\x81\x80\x00\x00\x00\x00\x00\x00" + len(adds).to_bytes(2, "big")
+            out.append("PARSE " + (hdr + b"".join(adds)).hex())
+        out.append("PARSE " + (b"\x00\x07\x81\x80\x00\x00\x00\x01\x00\x01\x00\x02" + r2 + r1 + a_rr + r1).hex())
     return out
 
 
